@@ -6,6 +6,13 @@ Anything else raises Unsupported (an analysis error for the caller)."""
 import ast
 from sa.util import AnalysisError
 class Unsupported(AnalysisError): pass
+def _iterate(v, env):
+    """the items a for-loop / comprehension / list() sees: an interpreted instance iterates through its __iter__"""
+    if isinstance(v, Inst) and env.get("__classdefs__"):
+        c_, f_ = find_method(env["__classdefs__"], v[".__cls__"], "__iter__")
+        if f_ is None: raise Raised("TypeError")
+        return list(call_method_of(v, c_, f_, [], {}, env))
+    return list(v)
 def _args(args, env):
     out_ = []
     for a in args:
@@ -21,6 +28,11 @@ def evaluate(e, env):
         except Unsupported: raise Unsupported("attribute %s" % key)
         if isinstance(base, dict) and ("." + e.attr) in base: return base["." + e.attr]      # sample object: {'.attr': value}
         if isinstance(base, SList) and e.attr in base.sample_attrs: return base.sample_attrs[e.attr]
+        if isinstance(base, Inst) and ("." + e.attr) not in base and env.get("__classdefs__"):
+            c_, f_ = find_method(env["__classdefs__"], base[".__cls__"], e.attr)
+            if f_ is not None and any(isinstance(d_, ast.Name) and d_.id == "property" for d_ in f_.decorator_list): return call_method_of(base, c_, f_, [], {}, env)
+            if f_ is not None: return PyFn(lambda *a, _c=c_, _f=f_, _b=base, **k: call_method_of(_b, _c, _f, list(a), k, env))       # a bound method used as a value
+            if e.attr != "__dict__" and e.attr != "__class__": raise Raised("AttributeError")
         if isinstance(base, Inst) and e.attr == "__dict__": return {k_[1:]: v_ for k_, v_ in base.items() if k_.startswith(".") and not k_.startswith(".__")}
         if isinstance(base, Inst) and e.attr == "__class__": return {".__name__": base[".__cls__"], ".kind": "cls"}
         h_ = (env.get("__functions__") or {}).get(e.attr)
@@ -60,7 +72,7 @@ def evaluate(e, env):
                     if len(v) != len(tg.elts): raise Unsupported("comprehension unpacking arity")
                     for t_, x_ in zip(tg.elts, v): bind(t_, x_, env3)
                 else: raise Unsupported("comprehension target")
-            for v in evaluate(g.iter, env2):
+            for v in _iterate(evaluate(g.iter, env2), env2):
                 env3 = dict(env2); bind(g.target, v, env3)
                 if all(evaluate(c, env3) for c in g.ifs): gen(i + 1, env3)
         gen(0, env); return dict(out) if isinstance(e, ast.DictComp) else (set(out) if isinstance(e, ast.SetComp) else out)
@@ -100,6 +112,14 @@ def evaluate(e, env):
         a, b = evaluate(e.left, env), evaluate(e.comparators[0], env); op = e.ops[0]
         if isinstance(op, ast.Eq): return a == b
         if isinstance(op, ast.NotEq): return a != b
+        if isinstance(op, (ast.In, ast.NotIn)) and isinstance(b, Inst) and env.get("__classdefs__"):
+            c_, f_ = find_method(env["__classdefs__"], b[".__cls__"], "__contains__")
+            if f_ is not None: r_ = bool(call_method_of(b, c_, f_, [a], {}, env))
+            else:
+                c_, f_ = find_method(env["__classdefs__"], b[".__cls__"], "__iter__")
+                if f_ is None: raise Raised("TypeError")
+                r_ = any(x_ is a or x_ == a for x_ in list(call_method_of(b, c_, f_, [], {}, env)))
+            return r_ if isinstance(op, ast.In) else not r_
         if isinstance(op, ast.In): return a in b
         if isinstance(op, ast.NotIn): return a not in b
         if isinstance(op, ast.Is): return a is b
@@ -123,6 +143,9 @@ def evaluate(e, env):
         return d_
     if isinstance(e, ast.Subscript):
         v = evaluate(e.value, env)
+        if isinstance(v, Inst) and env.get("__classdefs__") and not isinstance(e.slice, ast.Slice):
+            c_, f_ = find_method(env["__classdefs__"], v[".__cls__"], "__getitem__")
+            if f_ is not None: return call_method_of(v, c_, f_, [evaluate(e.slice, env)], {}, env)
         if isinstance(e.slice, ast.Slice):
             lo = evaluate(e.slice.lower, env) if e.slice.lower else None; hi = evaluate(e.slice.upper, env) if e.slice.upper else None
             st = evaluate(e.slice.step, env) if e.slice.step else None
@@ -143,6 +166,23 @@ def evaluate(e, env):
             if (isinstance(recv_, _re.Pattern) and e.func.attr in _PATTERN_METHODS) or (isinstance(recv_, _re.Match) and e.func.attr in _MATCH_METHODS):
                 r_ = _trusted_call(getattr(recv_, e.func.attr), _args(e.args, env), {k.arg: evaluate(k.value, env) for k in e.keywords if k.arg})
                 return list(r_) if e.func.attr == "finditer" else r_
+        if isinstance(e.func, ast.Name) and e.func.id in ("list", "tuple", "set", "sorted") and len(e.args) == 1 and not e.keywords and env.get("__classdefs__") and e.func.id not in env:
+            v_ = evaluate(e.args[0], env)
+            if isinstance(v_, Inst): return {"list": list, "tuple": tuple, "set": set, "sorted": sorted}[e.func.id](_iterate(v_, env))
+        if isinstance(e.func, ast.Name) and e.func.id == "len" and len(e.args) == 1 and env.get("__classdefs__"):
+            v_ = evaluate(e.args[0], env)
+            if isinstance(v_, Inst):
+                c_, f_ = find_method(env["__classdefs__"], v_[".__cls__"], "__len__")
+                if f_ is None: raise Raised("TypeError")
+                return call_method_of(v_, c_, f_, [], {}, env)
+            return len(v_)
+        if isinstance(e.func, ast.Name) and e.func.id == "iter" and len(e.args) == 1 and "iter" not in env: return list(evaluate(e.args[0], env))
+        if isinstance(e.func, ast.Name) and e.func.id == "dict" and "dict" not in env and e.keywords:
+            d_ = dict(*_args(e.args, env))
+            for k in e.keywords:
+                if k.arg is None: d_.update(evaluate(k.value, env))
+                else: d_[k.arg] = evaluate(k.value, env)
+            return d_
         if isinstance(e.func, ast.Name) and e.func.id in ("str", "repr") and len(e.args) == 1 and not e.keywords and e.func.id not in env and env.get("__classdefs__"):
             v_ = evaluate(e.args[0], env)
             return text_of(v_, env) if isinstance(v_, (Inst, list)) else (str(v_) if e.func.id == "str" else repr(v_))
@@ -355,7 +395,7 @@ def call_method_of(inst_, cls_name, fn_, args, kw, env):
     static_ = any(isinstance(d_, ast.Name) and d_.id == "staticmethod" for d_ in fn_.decorator_list)
     classm_ = any(isinstance(d_, ast.Name) and d_.id == "classmethod" for d_ in fn_.decorator_list)
     if static_: params = ["__no_self__"] + params
-    if fn_.args.vararg or len(args) + 1 > len(params): raise Unsupported("call of %s.%s with too many / star arguments" % (cls_name, fn_.name))
+    if len(args) + 1 > len(params) and not fn_.args.vararg: raise Unsupported("call of %s.%s with too many arguments" % (cls_name, fn_.name))
     env2 = {k_: v_ for k_, v_ in env.items() if isinstance(k_, str) and k_.startswith("__")}
     for k_, v_ in env.items():
         if isinstance(v_, (PyFn, ClassRef, Trusted)) or k_ in (env.get("__keep__") or ()): env2.setdefault(k_, v_)
@@ -364,6 +404,7 @@ def call_method_of(inst_, cls_name, fn_, args, kw, env):
     for name_, dflt in defaults.items(): env2[name_] = evaluate(dflt, env2)
     env2[params[0]] = ClassRef(cls_name) if classm_ else inst_
     for p_, a_ in zip(params[1:], args): env2[p_] = a_
+    if fn_.args.vararg: env2[fn_.args.vararg.arg] = tuple(args[len(params) - 1:])
     for k_, v_ in kw.items():
         if k_ not in params:
             if fn_.args.kwarg: continue
@@ -476,6 +517,10 @@ def run_block(stmts, env, max_steps=2000):
             else: env[ast.unparse(tg)] = v
         elif isinstance(tg, ast.Subscript) and not isinstance(tg.slice, ast.Slice):
             base = evaluate(tg.value, env)
+            if isinstance(base, Inst) and env.get("__classdefs__"):
+                c_, f_ = find_method(env["__classdefs__"], base[".__cls__"], "__setitem__")
+                if f_ is None: raise Raised("TypeError")
+                call_method_of(base, c_, f_, [evaluate(tg.slice, env), v], {}, env); return
             if not isinstance(base, (dict, list)): raise Unsupported("item assignment on " + type(base).__name__)
             base[evaluate(tg.slice, env)] = v
         else: raise Unsupported("assignment target " + ast.unparse(tg))
@@ -537,6 +582,10 @@ def run_block(stmts, env, max_steps=2000):
                 block(s.body if evaluate(s.test, env) else s.orelse); continue
             if isinstance(s, ast.For):
                 it = evaluate(s.iter, env)
+                if isinstance(it, Inst) and env.get("__classdefs__"):
+                    c_, f_ = find_method(env["__classdefs__"], it[".__cls__"], "__iter__")
+                    if f_ is None: raise Raised("TypeError")
+                    it = call_method_of(it, c_, f_, [], {}, env)
                 broke = False
                 for x in list(it):
                     assign(s.target, x)
